@@ -273,9 +273,10 @@ pub fn minimise(check: &dyn Check, case: &Case, class: &str, budget: std::time::
     while changed && t0.elapsed() < budget {
         changed = false;
         'outer: for i in 0..best.ops.len() {
+            let inner_key = if best.ops[i].get("Txn").and_then(|t| t.get("stmts")).is_some() { "stmts" } else { "ops" };
             let inner_len = best.ops[i]
                 .get("Txn")
-                .and_then(|t| t.get("ops"))
+                .and_then(|t| t.get(inner_key))
                 .and_then(|o| o.as_array())
                 .map(|a| a.len())
                 .unwrap_or(0);
@@ -284,7 +285,7 @@ pub fn minimise(check: &dyn Check, case: &Case, class: &str, budget: std::time::
                     break 'outer;
                 }
                 let mut cand = best.clone();
-                if let Some(a) = cand.ops[i]["Txn"]["ops"].as_array_mut() {
+                if let Some(a) = cand.ops[i]["Txn"][inner_key].as_array_mut() {
                     a.remove(j);
                     if a.is_empty() {
                         cand.ops.remove(i);
